@@ -68,29 +68,113 @@ Proof.
   - apply witness_invalid.
 Qed.
 
-(* the current (repaired) admission sequence still accepts the witness: the repaired merge step
-   leaves it alone, and the validator's FieldSelectionMerging rule, which compares names and
-   arguments of scalar-typed fields only, finds nothing wrong with two [a] fields of type A *)
-Lemma overlap_rule_accepts_witness : go_overlap_ok S0 (merge_fields witness) = true.
+(* the admission sequence as it was after a156714 and before the repairs of the rule still
+   accepted the witness: the repaired merge step left it alone, and the validator's
+   FieldSelectionMerging rule, which compared names and arguments of scalar-typed fields only,
+   found nothing wrong with two [a] fields of type A *)
+Lemma overlap_rule_accepted_witness : go_overlap_ok_pre_repair S0 (norm_doc old_quirks true witness) = true.
 Proof. vm_compute. reflexivity. Qed.
-Lemma accept_iff_valid_refuted_proof :
-  exists S d, go_overlap_ok S (merge_fields d) = true /\ spec_valid_b S d None = false.
-Proof. exists S0, witness. split. apply overlap_rule_accepts_witness. apply witness_invalid. Qed.
-(* ... while a conflict between scalar-typed fields is caught by the model of the rule *)
+Lemma accept_iff_valid_refuted_pre_repair_proof :
+  exists S d, go_overlap_ok_pre_repair S (norm_doc old_quirks true d) = true /\ spec_valid_b S d None = false.
+Proof. exists S0, witness. split. apply overlap_rule_accepted_witness. apply witness_invalid. Qed.
+(* the repaired rule (work/c04_fix_composite-fields-not-compared.patch) rejects it *)
+Lemma overlap_fixed_rejects_witness_proof : go_overlap_ok S0 (merge_fields witness) = false.
+Proof. vm_compute. reflexivity. Qed.
+(* ... and a conflict between scalar-typed fields was and is caught by the model of the rule *)
 Definition leaf_conflict : document :=
   [mk_query [] [fld fa [] [SField (Some [122]) fb [] [] []; SField (Some [122]) fc [] [] []]]].
 Lemma overlap_rule_rejects_leaf_conflict :
-  go_overlap_ok S0 (merge_fields leaf_conflict) = false /\ spec_valid_b S0 leaf_conflict None = false.
-Proof. vm_compute. split; reflexivity. Qed.
+  go_overlap_ok S0 (merge_fields leaf_conflict) = false /\
+  go_overlap_ok_pre_repair S0 (merge_fields leaf_conflict) = false /\
+  spec_valid_b S0 leaf_conflict None = false.
+Proof. vm_compute. repeat split; reflexivity. Qed.
 
 (* the repaired step never merges two fields whose argument lists differ *)
 Lemma fixed_merge_requires_equal_arguments : forall a n args dirs ss a' n' args' dirs' ss',
-  can_merge true (SField a n args dirs ss) (SField a' n' args' dirs' ss') = true ->
-  go_args_eqb args args' = true.
+  can_merge go_quirks true (SField a n args dirs ss) (SField a' n' args' dirs' ss') = true ->
+  go_args_eqb go_quirks args args' = true.
 Proof.
   intros. simpl in H. destruct ss; try discriminate. destruct ss'; try discriminate.
   apply andb_true_iff in H. destruct H as [H _]. apply andb_true_iff in H. destruct H as [_ H]. auto.
 Qed.
+
+(* ---- one witness per repaired defect of the rule: spec-invalid, accepted by the rule as it was
+   (after the merge step of that time), rejected by the repaired rule ----
+   schema { ... }  type Query { a(x: Int): A  b(x: Int): A  s: String  e: E  f(x: Int, y: Int): Int  i: I }
+   interface I { id: ID }  type A implements I { b: Int c: Int id: ID n: I a(x: Int): A as: [A] }
+   type B implements I { id: ID n: I o: B }  enum E { X }   (+ __typename: String! on every type) *)
+Definition nE : name := [69].
+Definition fs : name := [115].
+Definition fe : name := [101].
+Definition ff : name := [102].
+Definition fn : name := [110].
+Definition ay : name := [121].
+Definition kz : name := [122].
+Definition n_Str : name := [83;116;114;105;110;103].
+Definition arg_y : inputvalue_def := {| iv_name := ay; iv_type := TNamed n_Int; iv_default := None; iv_dirs := [] |}.
+Definition tn_fd : field_def := mk_fd s_typename [] (TNonNull (TNamed n_Str)).
+Definition mk_enum (n : name) (vs : list name) : type_def :=
+  {| td_kind := KEnum; td_name := n; td_implements := []; td_fields := []; td_members := [];
+     td_enum_values := map (fun v => {| ev_name := v; ev_dirs := [] |}) vs; td_input_fields := []; td_dirs := [] |}.
+Definition S1 : schema :=
+  {| s_query := nQuery; s_mutation := None; s_subscription := None;
+     s_types := [ mk_obj nQuery [] [mk_fd fa [arg_x] (TNamed nA); mk_fd fb [arg_x] (TNamed nA); mk_fd fs [] (TNamed n_Str);
+                                    mk_fd fe [] (TNamed nE); mk_fd ff [arg_x; arg_y] (TNamed n_Int); mk_fd fi [] (TNamed nI); tn_fd];
+                  mk_iface nI [mk_fd fid [] (TNamed n_ID); tn_fd];
+                  mk_obj nA [nI] [mk_fd fb [] (TNamed n_Int); mk_fd fc [] (TNamed n_Int); mk_fd fid [] (TNamed n_ID);
+                                  mk_fd fn [] (TNamed nI); mk_fd fa [arg_x] (TNamed nA);
+                                  mk_fd [97;115] [] (TList (TNamed nA)); tn_fd];
+                  mk_obj nB [nI] [mk_fd fid [] (TNamed n_ID); mk_fd fn [] (TNamed nI); mk_fd [111] [] (TNamed nB); tn_fd];
+                  mk_enum nE [[88]] ];
+     s_directives := [] |}.
+Definition al (k n : name) (args : list argument) (ss : list selection) : selection := SField (Some k) n args [] ss.
+(* { z: __typename z: s } *)
+Definition w_typename : document := [mk_query [] [al kz s_typename [] []; al kz fs [] []]].
+(* { z: e z: s } *)
+Definition w_enum : document := [mk_query [] [al kz fe [] []; al kz fs [] []]].
+(* { z: a{b} z: b{b} } *)
+Definition w_names : document := [mk_query [] [al kz fa [] [fld fb [] []]; al kz fb [] [fld fb [] []]]].
+(* { z: s z: a{b} } *)
+Definition w_leaf_composite : document := [mk_query [] [al kz fs [] []; al kz fa [] [fld fb [] []]]].
+(* { i { ... on B { z: n{id} } ... on A { z: a(x:1){id} z: a(x:2){id} } } }: the first A field met a requirement
+   of another type kind (interface I) and was not recorded, so the second was never compared with it *)
+Definition w_dropped : document :=
+  [mk_query [] [fld fi [] [SInline (Some nB) [] [al kz fn [] [fld fid [] []]];
+                           SInline (Some nA) [] [al kz fa [(ax, VInt [49])] [fld fid [] []];
+                                                 al kz fa [(ax, VInt [50])] [fld fid [] []]]]]].
+(* { i { ... on A { z: as{id} } ... on B { z: o{id} } } }: [A] and B under one response name *)
+Definition w_shape : document :=
+  [mk_query [] [fld fi [] [SInline (Some nA) [] [al kz [97;115] [] [fld fid [] []]];
+                           SInline (Some nB) [] [al kz [111] [] [fld fid [] []]]]]].
+(* { f(x:1, y:2) f(y:2, x:1) }: spec-VALID, rejected by the positional argument comparison *)
+Definition w_args : document :=
+  [mk_query [] [fld ff [(ax, VInt [49]); (ay, VInt [50])] []; fld ff [(ay, VInt [50]); (ax, VInt [49])] []]].
+
+Definition pre_repair_accepts (d : document) : bool := go_overlap_ok_pre_repair S1 (norm_doc old_quirks true d).
+Definition repaired_accepts (d : document) : bool := go_overlap_ok S1 (merge_fields d).
+
+Lemma S1_wf : schema_wf_b S1 = true.
+Proof. vm_compute. reflexivity. Qed.
+Lemma overlap_pre_repair_refuted_proof :
+  forall d, In d [witness; w_typename; w_enum; w_names; w_leaf_composite; w_dropped; w_shape] ->
+    pre_repair_accepts d = true /\ spec_report S1 d None = [R_merge].
+Proof.
+  intros d H. simpl in H.
+  repeat (destruct H as [H|H]; [subst d; vm_compute; split; reflexivity|]). contradiction.
+Qed.
+Lemma overlap_fixed_rejects_witnesses_proof :
+  forall d, In d [witness; w_typename; w_enum; w_names; w_leaf_composite; w_dropped; w_shape] -> repaired_accepts d = false.
+Proof.
+  intros d H. simpl in H.
+  repeat (destruct H as [H|H]; [subst d; vm_compute; reflexivity|]). contradiction.
+Qed.
+Lemma args_order_pre_repair_refuted_proof :
+  pre_repair_accepts w_args = false /\ spec_valid_b S1 w_args None = true.
+Proof. vm_compute. split; reflexivity. Qed.
+Lemma args_order_fixed_accepts_proof :
+  repaired_accepts w_args = true /\
+  merge_fields w_args = [mk_query [] [fld ff [(ax, VInt [49]); (ay, VInt [50])] []]].
+Proof. vm_compute. split; reflexivity. Qed.
 
 (* ---- a non-trivial valid operation: variables, a fragment on an interface, overlapping fields ----
    query($v: Int = 1) { a(x: $v) { b ...F } i { ...F ... on A { c } ... on B { b } } a(x: $v) { c } }
